@@ -8,34 +8,40 @@ package main
 // gRPC queriers.
 
 import (
+	"bytes"
 	"encoding/base64"
+	"encoding/hex"
+	"encoding/json"
 	"flag"
-	"time"
 	"fmt"
 	"math/big"
 	"sort"
+	"strconv"
 	"strings"
+	"time"
 
 	sdkmath "cosmossdk.io/math"
 	dbm "github.com/cometbft/cometbft-db"
 	"github.com/cosmos/cosmos-sdk/crypto/keys/ed25519"
 	sdk "github.com/cosmos/cosmos-sdk/types"
+	"github.com/cosmos/cosmos-sdk/types/query"
 	sdkvesting "github.com/cosmos/cosmos-sdk/x/auth/vesting/types"
 	banktypes "github.com/cosmos/cosmos-sdk/x/bank/types"
+	distrkeeper "github.com/cosmos/cosmos-sdk/x/distribution/keeper"
 	distrtypes "github.com/cosmos/cosmos-sdk/x/distribution/types"
 	stakingkeeper "github.com/cosmos/cosmos-sdk/x/staking/keeper"
+	stakingtypes "github.com/cosmos/cosmos-sdk/x/staking/types"
 	transfertypes "github.com/cosmos/ibc-go/v7/modules/apps/transfer/types"
 	clienttypes "github.com/cosmos/ibc-go/v7/modules/core/02-client/types"
-	stakingtypes "github.com/cosmos/cosmos-sdk/x/staking/types"
 	"github.com/ethereum/go-ethereum/accounts/abi"
 	"github.com/ethereum/go-ethereum/common"
 	ethtypes "github.com/ethereum/go-ethereum/core/types"
 
 	stakingprecompile "github.com/haqq-network/haqq/precompiles/staking"
 	"github.com/haqq-network/haqq/utils"
+	evmtypes "github.com/haqq-network/haqq/x/evm/types"
 	liquidvestingtypes "github.com/haqq-network/haqq/x/liquidvesting/types"
 	vestingtypes "github.com/haqq-network/haqq/x/vesting/types"
-	evmtypes "github.com/haqq-network/haqq/x/evm/types"
 )
 
 func init() { register("pceq", pceqMain) }
@@ -47,6 +53,31 @@ type pceqCase struct {
 	Amt    string `json:"amt"`    // amount class
 	Height string `json:"height"` // ok | wrong (cancelUnbonding)
 	To     string `json:"to"`     // T | self (setWithdrawAddress)
+	Dst    string `json:"dst"`    // redelegate: destination validator (V3 | same | V1 | unknown | badbech32)
+	// ICS-20 transfer arguments
+	Tmo   string `json:"tmo"`   // none | height | heightPast | ts | tsPast | both | bothTsPast | bothHeightPast
+	Memo  string `json:"memo"`  // none | text
+	Rcv   string `json:"rcv"`   // ok | empty | long
+	Chan  string `json:"chan"`  // ok | chan1 | noChannel | noPort | badId
+	Denom string `json:"denom"` // native | other | unheld | voucher | voucherFwd | invalid
+}
+
+// norm fills the arguments an older case file does not name with the values that were fixed then.
+func (c pceqCase) norm() pceqCase {
+	def := func(p *string, v string) {
+		if *p == "" {
+			*p = v
+		}
+	}
+	def(&c.Height, "ok")
+	def(&c.To, "T")
+	def(&c.Dst, "V3")
+	def(&c.Tmo, "height")
+	def(&c.Memo, "none")
+	def(&c.Rcv, "ok")
+	def(&c.Chan, "ok")
+	def(&c.Denom, "native")
+	return c
 }
 
 type pceqState struct {
@@ -58,6 +89,13 @@ type pceqState struct {
 
 var bankABI abi.ABI
 var bankPC = common.HexToAddress("0x0000000000000000000000000000000000000804")
+
+// voucher denominations of the "rich" state: one that came in over transfer/channel-0 (sending it back over that
+// channel burns it) and one that came in over another channel (sending it over channel-0 escrows it)
+var (
+	pceqTraceBack = transfertypes.DenomTrace{Path: "transfer/channel-0", BaseDenom: "uatom"}
+	pceqTraceFwd  = transfertypes.DenomTrace{Path: "transfer/channel-9", BaseDenom: "uosmo"}
+)
 
 func pceqBuild(seed int64, kind string) *pceqState {
 	cfg := DefaultGenesisCfg(seed)
@@ -88,10 +126,14 @@ func pceqBuild(seed int64, kind string) *pceqState {
 			panic("set-up tx failed: " + res.Log)
 		}
 	}
+	v2 := w.Vals[1]
+	emptyV2 := kind == "v2Empty" || kind == "v2EmptyBonded"
 	if kind != "noDeleg" && kind != "operator" && kind != "operatorWd" {
-		// (also for "slashed", "vesting")
+		// (also for "slashed", "vesting", the validator life-cycle states and "rich")
 		add(S, stakingtypes.NewMsgDelegate(S.Addr, w.Vals[0].ValAddr(), coin("1000000000000000000000")))
-		add(S, stakingtypes.NewMsgDelegate(S.Addr, w.Vals[1].ValAddr(), coin("300000000000000000000")))
+		if !emptyV2 {
+			add(S, stakingtypes.NewMsgDelegate(S.Addr, v2.ValAddr(), coin("300000000000000000000")))
+		}
 		add(S, stakingtypes.NewMsgUndelegate(S.Addr, w.Vals[0].ValAddr(), coin("5000000")))
 	}
 	add(T, stakingtypes.NewMsgDelegate(T.Addr, w.Vals[0].ValAddr(), coin("1000000000000000000000")))
@@ -103,6 +145,44 @@ func pceqBuild(seed int64, kind string) *pceqState {
 		a := sdk.NewCoins(coin("5000000000000000000000"))
 		add(T, vestingtypes.NewMsgConvertIntoVestingAccount(T.Addr, S.Addr, n.Time.Add(-20*time.Second),
 			sdkvesting.Periods{{Length: 30, Amount: a}}, sdkvesting.Periods{{Length: 100000, Amount: a}}, false, false, nil))
+	}
+	if kind == "v2Empty" {
+		// the only delegation of V2 (its operator's) is withdrawn completely: 0 tokens, 0 shares; the validator stays in
+		// the store, unbonding, until its unbonding period is over
+		add(v2.Oper, stakingtypes.NewMsgUndelegate(v2.Oper.Addr, v2.ValAddr(), coin(cfg.ValStake)))
+	}
+	if kind == "v2Unbonding" || kind == "v2Unbonded" {
+		// three stronger validators are created (5 slots): the weakest of the old ones, V2, leaves the active set
+		add(T, stakingtypes.NewMsgDelegate(T.Addr, w.Vals[2].ValAddr(), coin("500000000000000000000")))
+		for i, nm := range []string{"a4", "a5", "a6"} {
+			k := w.Acct(nm)
+			pk := ed25519.GenPrivKeyFromSecret([]byte(fmt.Sprintf("hv-pceq-newval-%d", i))).PubKey()
+			m, err := stakingtypes.NewMsgCreateValidator(sdk.ValAddress(k.Addr), pk, coin("2000000000000000000000"), stakingtypes.Description{Moniker: nm},
+				stakingtypes.NewCommissionRates(sdkmath.LegacyNewDecWithPrec(5, 2), sdkmath.LegacyNewDecWithPrec(20, 2), sdkmath.LegacyNewDecWithPrec(1, 2)),
+				sdkmath.OneInt())
+			if err != nil {
+				panic(err)
+			}
+			add(k, m)
+		}
+	}
+	if kind == "rich" {
+		// redelegations of S between three pairs and one of T from the same source validator
+		add(S, stakingtypes.NewMsgBeginRedelegate(S.Addr, v2.ValAddr(), w.Vals[2].ValAddr(), coin("50000000000000000000")))
+		add(S, stakingtypes.NewMsgBeginRedelegate(S.Addr, w.Vals[0].ValAddr(), v2.ValAddr(), coin("70000000000000000000")))
+		add(S, stakingtypes.NewMsgBeginRedelegate(S.Addr, w.Vals[0].ValAddr(), w.Vals[2].ValAddr(), coin("20000000000000000000")))
+		add(T, stakingtypes.NewMsgBeginRedelegate(T.Addr, w.Vals[0].ValAddr(), v2.ValAddr(), coin("30000000000000000000")))
+		// IBC vouchers held by S, with their denomination traces
+		for _, tr := range []transfertypes.DenomTrace{pceqTraceBack, pceqTraceFwd} {
+			n.App.TransferKeeper.SetDenomTrace(n.Ctx(), tr)
+			c := sdk.NewCoins(sdk.NewCoin(tr.IBCDenom(), sdkmath.NewInt(5_000_000_000)))
+			if err := n.App.BankKeeper.MintCoins(n.Ctx(), "coinomics", c); err != nil {
+				panic(err)
+			}
+			if err := n.App.BankKeeper.SendCoinsFromModuleToAccount(n.Ctx(), "coinomics", S.Addr, c); err != nil {
+				panic(err)
+			}
+		}
 	}
 	OpenLoopbackChannel(n)
 	if kind == "slashed" {
@@ -154,10 +234,65 @@ func pceqBuild(seed int64, kind string) *pceqState {
 		n.EndBlock()
 		n.Commit()
 	}
-	for i := 0; i < 3; i++ {
+	getV2 := func() stakingtypes.Validator {
+		v, ok := n.App.StakingKeeper.GetValidator(n.App.BaseApp.NewContext(true, n.Header), v2.ValAddr())
+		if !ok {
+			panic("state " + kind + ": V2 is gone")
+		}
+		return v
+	}
+	if kind == "v2Jailed" || kind == "rich" {
+		// V2 stops signing until it is jailed for downtime (slashed, leaves the active set)
+		for i := 0; i < 14 && !getV2().Jailed; i++ {
+			n.BeginBlock(BlockIn{DtMs: 5000, Proposer: 0, Absent: []int{1}})
+			n.EndBlock()
+			n.Commit()
+		}
+		if !getV2().Jailed {
+			panic("state " + kind + ": V2 was not jailed")
+		}
+	}
+	if kind == "rich" {
+		// a second entry of the redelegation V1 -> V3 of S, and a second slash of V2 (double sign)
+		n.BeginBlock(BlockIn{DtMs: 5000, Proposer: 0, Evidence: []int{1}})
+		add(S, stakingtypes.NewMsgBeginRedelegate(S.Addr, w.Vals[0].ValAddr(), w.Vals[2].ValAddr(), coin("10000000000000000000")))
+		n.EndBlock()
+		n.Commit()
+	}
+	warm := 3
+	if kind == "v2Unbonded" {
+		warm = 15 // more than the unbonding period (60 s)
+	}
+	for i := 0; i < warm; i++ {
 		r.block()
 	}
 	n.BeginBlock(BlockIn{DtMs: 5000, Proposer: 0})
+	if kind == "v2EmptyBonded" {
+		// the last delegation leaves V2 in the block under test: 0 tokens, still in the active set
+		add(v2.Oper, stakingtypes.NewMsgUndelegate(v2.Oper.Addr, v2.ValAddr(), coin(cfg.ValStake)))
+	}
+	// the state must be what its name says
+	{
+		v, _ := n.App.StakingKeeper.GetValidator(n.Ctx(), v2.ValAddr())
+		bad := false
+		switch kind {
+		case "v2Empty":
+			bad = !v.Tokens.IsZero() || !v.DelegatorShares.IsZero() || v.Status != stakingtypes.Unbonding
+		case "v2EmptyBonded":
+			bad = !v.Tokens.IsZero() || !v.DelegatorShares.IsZero() || v.Status != stakingtypes.Bonded
+		case "v2Jailed":
+			bad = !v.Jailed || v.Status != stakingtypes.Unbonding || v.Tokens.IsZero()
+		case "v2Unbonding":
+			bad = v.Jailed || v.Status != stakingtypes.Unbonding
+		case "v2Unbonded":
+			bad = v.Jailed || v.Status != stakingtypes.Unbonded
+		case "rich":
+			bad = len(n.App.StakingKeeper.GetRedelegations(n.Ctx(), S.Addr, 10)) != 3
+		}
+		if bad {
+			panic(fmt.Sprintf("state %s was not reached: V2 status=%s jailed=%v tokens=%s shares=%s", kind, v.Status, v.Jailed, v.Tokens, v.DelegatorShares))
+		}
+	}
 	return &pceqState{r: r, ew: ew, ctx: n.Ctx(), S: S}
 }
 
@@ -183,9 +318,105 @@ func (st *pceqState) valAddr(v string) string {
 	return "haqqvaloper1notbech32"
 }
 
-func (st *pceqState) amount(ctx sdk.Context, class string, v string) *big.Int {
+// dstAddr resolves the destination validator of a redelegation.
+func (st *pceqState) dstAddr(c pceqCase) string {
+	if c.Dst == "same" {
+		return st.valAddr(c.Val)
+	}
+	return st.valAddr(c.Dst)
+}
+
+// icsArgs resolves the symbolic ICS-20 arguments of a case in the block of ctx.
+type pceqIcs struct {
+	Port, Channel, Denom, Receiver, Memo string
+	Height                               clienttypes.Height
+	Timestamp                            uint64
+}
+
+func pceqIcsDenom(class string) string {
+	switch class {
+	case "native":
+		return utils.BaseDenom
+	case "other":
+		return "utest"
+	case "unheld":
+		return "unobody"
+	case "voucher":
+		return pceqTraceBack.IBCDenom()
+	case "voucherFwd":
+		return pceqTraceFwd.IBCDenom()
+	case "invalid":
+		return "1bad!"
+	}
+	panic("denom class " + class)
+}
+
+func pceqIcsArgs(ctx sdk.Context, c pceqCase) pceqIcs {
+	a := pceqIcs{Port: "transfer", Channel: "channel-0", Denom: pceqIcsDenom(c.Denom), Receiver: "haqq1receiveronotherside"}
+	switch c.Chan {
+	case "ok":
+	case "chan1":
+		a.Channel = "channel-1"
+	case "noChannel":
+		a.Channel = "channel-7"
+	case "noPort":
+		a.Port = "xfer"
+	case "badId":
+		a.Channel = "c!"
+	default:
+		panic("chan class " + c.Chan)
+	}
+	switch c.Rcv {
+	case "ok":
+	case "empty":
+		a.Receiver = ""
+	case "long":
+		a.Receiver = strings.Repeat("r", 2049)
+	default:
+		panic("rcv class " + c.Rcv)
+	}
+	switch c.Memo {
+	case "none":
+	case "text":
+		a.Memo = `{"note":"hv-pceq memo"}`
+	default:
+		panic("memo class " + c.Memo)
+	}
+	hOK, hPast := clienttypes.NewHeight(1, 1_000_000), clienttypes.NewHeight(1, 1)
+	tOK, tPast := uint64(ctx.BlockTime().Add(time.Hour).UnixNano()), uint64(ctx.BlockTime().Add(-time.Second).UnixNano())
+	switch c.Tmo {
+	case "none":
+	case "height":
+		a.Height = hOK
+	case "heightPast":
+		a.Height = hPast
+	case "ts":
+		a.Timestamp = tOK
+	case "tsPast":
+		a.Timestamp = tPast
+	case "both":
+		a.Height, a.Timestamp = hOK, tOK
+	case "bothTsPast":
+		a.Height, a.Timestamp = hOK, tPast
+	case "bothHeightPast":
+		a.Height, a.Timestamp = hPast, tOK
+	default:
+		panic("tmo class " + c.Tmo)
+	}
+	return a
+}
+
+func (st *pceqState) amount(ctx sdk.Context, c pceqCase) *big.Int {
+	class, v := c.Amt, c.Val
 	app := st.r.n.App
 	bal := app.BankKeeper.GetBalance(ctx, st.S.Addr, utils.BaseDenom).Amount
+	if c.M == "ibcTransfer" {
+		// the balance the amount classes refer to is the one in the denomination sent
+		bal = sdkmath.ZeroInt()
+		if d := pceqIcsDenom(c.Denom); sdk.ValidateDenom(d) == nil {
+			bal = app.BankKeeper.GetBalance(ctx, st.S.Addr, d).Amount
+		}
+	}
 	del := sdkmath.ZeroInt()
 	if va, err := sdk.ValAddressFromBech32(st.valAddr(v)); err == nil {
 		if d, ok := app.StakingKeeper.GetDelegation(ctx, st.S.Addr, va); ok {
@@ -246,7 +477,7 @@ func (st *pceqState) native(ctx sdk.Context, c pceqCase, amt *big.Int) (ok bool,
 	case "undelegate":
 		msgs = []sdk.Msg{&stakingtypes.MsgUndelegate{DelegatorAddress: S.Addr.String(), ValidatorAddress: val, Amount: cn}}
 	case "redelegate":
-		msgs = []sdk.Msg{&stakingtypes.MsgBeginRedelegate{DelegatorAddress: S.Addr.String(), ValidatorSrcAddress: val, ValidatorDstAddress: st.valAddr("V3"), Amount: cn}}
+		msgs = []sdk.Msg{&stakingtypes.MsgBeginRedelegate{DelegatorAddress: S.Addr.String(), ValidatorSrcAddress: val, ValidatorDstAddress: st.dstAddr(c), Amount: cn}}
 	case "cancelUnbonding":
 		h := int64(1)
 		if c.Height == "wrong" {
@@ -273,8 +504,9 @@ func (st *pceqState) native(ctx sdk.Context, c pceqCase, amt *big.Int) (ok bool,
 		}
 		msgs = []sdk.Msg{m}
 	case "ibcTransfer":
-		msgs = []sdk.Msg{transfertypes.NewMsgTransfer("transfer", "channel-0", cn, S.Addr.String(), "haqq1receiveronotherside",
-			clienttypes.NewHeight(1, 1_000_000), 0, "")}
+		a := pceqIcsArgs(ctx, c)
+		msgs = []sdk.Msg{transfertypes.NewMsgTransfer(a.Port, a.Channel, sdk.Coin{Denom: a.Denom, Amount: cn.Amount}, S.Addr.String(), a.Receiver,
+			a.Height, a.Timestamp, a.Memo)}
 	default:
 		panic("native: " + c.M)
 	}
@@ -315,7 +547,7 @@ func (st *pceqState) precompile(ctx sdk.Context, c pceqCase, amt *big.Int) (ok b
 		data, err = stakingABI.Pack(c.M, who, val, amt)
 	case "redelegate":
 		to = stakingPC
-		data, err = stakingABI.Pack("redelegate", who, val, st.valAddr("V3"), amt)
+		data, err = stakingABI.Pack("redelegate", who, val, st.dstAddr(c), amt)
 	case "cancelUnbonding":
 		h := int64(1)
 		if c.Height == "wrong" {
@@ -337,15 +569,18 @@ func (st *pceqState) precompile(ctx sdk.Context, c pceqCase, amt *big.Int) (ok b
 		data, err = distrABI.Pack("withdrawValidatorCommission", sdk.ValAddress(st.S.Addr).String())
 	case "createValidator":
 		pk := ed25519.GenPrivKeyFromSecret([]byte("hv-pceq-cons-key")).PubKey()
-		d16 := func(n int64) *big.Int { return new(big.Int).Mul(big.NewInt(n), new(big.Int).Exp(big.NewInt(10), big.NewInt(16), nil)) }
+		d16 := func(n int64) *big.Int {
+			return new(big.Int).Mul(big.NewInt(n), new(big.Int).Exp(big.NewInt(10), big.NewInt(16), nil))
+		}
 		to = stakingPC
 		data, err = stakingABI.Pack("createValidator", stakingprecompile.Description{Moniker: "s"},
 			stakingprecompile.Commission{Rate: d16(5), MaxRate: d16(20), MaxChangeRate: d16(1)},
 			big.NewInt(1), who, sdk.ValAddress(st.S.Addr).String(), base64.StdEncoding.EncodeToString(pk.Bytes()), amt)
 	case "ibcTransfer":
 		to = ics20PC
-		data, err = ics20ABI.Pack("transfer", "transfer", "channel-0", "aISLM", amt, who, "haqq1receiveronotherside",
-			icsHeight{RevisionNumber: 1, RevisionHeight: 1_000_000}, uint64(0), "")
+		a := pceqIcsArgs(ctx, c)
+		data, err = ics20ABI.Pack("transfer", a.Port, a.Channel, a.Denom, amt, who, a.Receiver,
+			icsHeight{RevisionNumber: a.Height.RevisionNumber, RevisionHeight: a.Height.RevisionHeight}, a.Timestamp, a.Memo)
 	default:
 		panic("precompile: " + c.M)
 	}
@@ -433,6 +668,31 @@ func (st *pceqState) queries(ctx sdk.Context) M {
 			pre = e
 		}
 		out["validator:"+v] = M{"native": nat, "precompile": pre}
+	}
+	// one redelegation (delegator, source, destination)
+	for _, pr := range [][2]string{{"V1", "V3"}, {"V2", "V3"}, {"V1", "V2"}, {"V1", "unknown"}} {
+		src, dst := st.valAddr(pr[0]), st.valAddr(pr[1])
+		nat := "entries="
+		if r, err := q.Redelegations(gctx, &stakingtypes.QueryRedelegationsRequest{DelegatorAddr: st.S.Addr.String(), SrcValidatorAddr: src, DstValidatorAddr: dst}); err == nil && len(r.RedelegationResponses) == 1 {
+			var es []string
+			// (the native response carries the entries next to the redelegation, with their balances)
+			for _, x := range r.RedelegationResponses[0].Entries {
+				e := x.RedelegationEntry
+				es = append(es, pceqRedEntryStr(e.CreationHeight, e.CompletionTime.Unix(), e.InitialBalance.String(), e.SharesDst.BigInt().String()))
+			}
+			nat = "entries=" + strings.Join(es, ";")
+		}
+		pre := ""
+		if vals, e := st.view(ctx, stakingPC, stakingABI, "redelegation", who, src, dst); e == "" {
+			var es []string
+			for _, e := range jl(vals[0], "entries") {
+				es = append(es, fmt.Sprintf("%s/%s/%s/%s", js(e, "creationHeight"), js(e, "completionTime"), js(e, "initialBalance"), js(e, "sharesDst")))
+			}
+			pre = "entries=" + strings.Join(es, ";")
+		} else {
+			pre = e
+		}
+		out["redelegation:"+pr[0]+">"+pr[1]] = M{"native": nat, "precompile": pre}
 	}
 	// bank precompile: every denomination that has an ERC20 address
 	if bankABI.Methods == nil {
@@ -541,15 +801,408 @@ func balancesStr(v interface{}) string {
 	return strings.Join(out, ",")
 }
 
+// project: the projection shared with the EvmCosmos driver plus what the argument and state dimensions of this
+// specification can touch: other denominations, redelegations, the validators themselves, the IBC packet store.
+func (st *pceqState) project(ctx sdk.Context) M {
+	p := st.r.project(ctx)
+	app := st.r.n.App
+	w := st.r.n.W
+	valName := map[string]string{}
+	for i, v := range w.Vals {
+		valName[v.ValAddr().String()] = fmt.Sprintf("V%d", i+1)
+	}
+	nm := func(a string) string {
+		if x, ok := valName[a]; ok {
+			return x
+		}
+		return a
+	}
+	// balances in every other denomination (accounts, the escrow accounts of both channels), and the supplies
+	others := func(a sdk.AccAddress) string {
+		var out []string
+		for _, c := range app.BankKeeper.GetAllBalances(ctx, a) {
+			if c.Denom != utils.BaseDenom {
+				out = append(out, c.Denom+"="+c.Amount.String())
+			}
+		}
+		return strings.Join(out, ",")
+	}
+	den := M{}
+	for _, n := range st.r.names {
+		den[n] = others(st.r.addrs[n])
+	}
+	den["escrow0"] = others(transfertypes.GetEscrowAddress("transfer", "channel-0"))
+	esc1 := app.BankKeeper.GetAllBalances(ctx, transfertypes.GetEscrowAddress("transfer", "channel-1"))
+	den["escrow1"] = esc1.String()
+	den["transferModule"] = app.BankKeeper.GetAllBalances(ctx, app.AccountKeeper.GetModuleAddress(transfertypes.ModuleName)).String()
+	var sup []string
+	app.BankKeeper.IterateTotalSupply(ctx, func(c sdk.Coin) bool {
+		if c.Denom != utils.BaseDenom {
+			sup = append(sup, c.Denom+"="+c.Amount.String())
+		}
+		return false
+	})
+	sort.Strings(sup)
+	den["supply"] = strings.Join(sup, ",")
+	var tesc []string
+	for _, c := range app.TransferKeeper.GetAllTotalEscrowed(ctx) {
+		tesc = append(tesc, c.String())
+	}
+	den["totalEscrow"] = strings.Join(tesc, ",")
+	p["denoms"] = den
+	// redelegations of the accounts
+	red := M{}
+	for _, n := range st.r.names {
+		var out []string
+		for _, rd := range app.StakingKeeper.GetRedelegations(ctx, st.r.addrs[n], 100) {
+			var es []string
+			for _, e := range rd.Entries {
+				es = append(es, fmt.Sprintf("%d/%d/%s/%s", e.CreationHeight, e.CompletionTime.UTC().Unix(), e.InitialBalance, e.SharesDst.BigInt()))
+			}
+			out = append(out, nm(rd.ValidatorSrcAddress)+">"+nm(rd.ValidatorDstAddress)+":"+strings.Join(es, ";"))
+		}
+		sort.Strings(out)
+		red[n] = strings.Join(out, " ")
+	}
+	p["red"] = red
+	// every validator in the store
+	vals := M{}
+	for _, v := range app.StakingKeeper.GetAllValidators(ctx) {
+		vals[nm(v.OperatorAddress)] = fmt.Sprintf("%s/%v/%s/%s/%d/%d", v.Status, v.Jailed, v.Tokens, v.DelegatorShares.BigInt(), v.UnbondingHeight, v.UnbondingTime.UTC().Unix())
+	}
+	p["vals"] = vals
+	// packets sent: next sequence and the commitment of the last one, per channel
+	ibc := M{}
+	ck := app.IBCKeeper.ChannelKeeper
+	for _, ch := range []string{"channel-0", "channel-1"} {
+		seq, _ := ck.GetNextSequenceSend(ctx, "transfer", ch)
+		cm := "none"
+		if seq > 1 {
+			cm = hex.EncodeToString(ck.GetPacketCommitment(ctx, "transfer", ch, seq-1))
+		}
+		ibc[ch] = fmt.Sprintf("next=%d,last=%s", seq, cm)
+	}
+	p["ibc"] = ibc
+	// grants of the three accounts to each other (no call of an owner may touch them): one canonical string
+	p["grants"] = fmt.Sprint(M{"limit": p["grants"], "vals": p["grantVals"], "exp": p["grantExp"]})
+	// fields of the EvmCosmos projection that this specification does not compare
+	for _, k := range []string{"grantVals", "grantExp", "storage", "nonce", "code"} {
+		delete(p, k)
+	}
+	return p
+}
+
+// ---------------------------------------------------------------------------------------
+// paginated read-only methods: walks
+
+type pceqWalk struct {
+	State      string `json:"state"`
+	Q          string `json:"q"`     // validators | redelegations | validatorSlashes
+	Sel        string `json:"sel"`   // selector (see specs/PrecompileEq.tla)
+	Limit      string `json:"limit"` // "0" = default page size
+	CountTotal bool   `json:"countTotal"`
+	Reverse    bool   `json:"reverse"`
+	Mode       string `json:"mode"` // key | offset
+}
+
+type pceqPage struct {
+	Items   []string `json:"items"`
+	Next    string   `json:"next"` // continuation key (hex), "" = none
+	Total   string   `json:"total"`
+	Err     string   `json:"err"` // "yes" if the call failed
+	next    []byte
+	errText string
+}
+
+type pceqPageReq struct {
+	Key        []byte `abi:"key"`
+	Offset     uint64 `abi:"offset"`
+	Limit      uint64 `abi:"limit"`
+	CountTotal bool   `abi:"countTotal"`
+	Reverse    bool   `abi:"reverse"`
+}
+
+func pceqErrPage(why string) pceqPage {
+	return pceqPage{Items: []string{}, Total: "0", Err: "yes", errText: why}
+}
+
+func pceqPageOf(items []string, pr *query.PageResponse) pceqPage {
+	if items == nil {
+		items = []string{}
+	}
+	pg := pceqPage{Items: items, Total: "0"}
+	if pr != nil {
+		pg.next = pr.NextKey
+		pg.Next = hex.EncodeToString(pr.NextKey)
+		pg.Total = fmt.Sprint(pr.Total)
+	}
+	return pg
+}
+
+// pceqDoWalk asks for page after page as the walk prescribes, following the continuation that `fetch` itself returned.
+func pceqDoWalk(w pceqWalk, fetch func(pr query.PageRequest) pceqPage) []pceqPage {
+	limit, err := strconv.ParseUint(w.Limit, 10, 64)
+	if err != nil {
+		panic(err)
+	}
+	var pages []pceqPage
+	var key []byte
+	for i := 0; i < 12; i++ {
+		pr := query.PageRequest{Limit: limit, CountTotal: w.CountTotal, Reverse: w.Reverse}
+		if w.Mode == "key" {
+			pr.Key = key
+		} else {
+			pr.Offset = uint64(i) * limit
+		}
+		pg := fetch(pr)
+		pages = append(pages, pg)
+		if pg.Err != "" {
+			break
+		}
+		if w.Mode == "key" {
+			if len(pg.next) == 0 {
+				break
+			}
+			key = pg.next
+		} else if len(pg.Items) == 0 || limit == 0 {
+			break
+		}
+	}
+	return pages
+}
+
+// pceqUnpack decodes the return data of a precompile method into generic JSON values (tuples become objects keyed by
+// the ABI component names, integers stay exact, byte strings are base64).
+func pceqUnpack(a abi.ABI, method string, ret []byte) ([]interface{}, error) {
+	vals, err := a.Unpack(method, ret)
+	if err != nil {
+		return nil, err
+	}
+	bz, err := json.Marshal(vals)
+	if err != nil {
+		return nil, err
+	}
+	dec := json.NewDecoder(bytes.NewReader(bz))
+	dec.UseNumber()
+	var out []interface{}
+	if err := dec.Decode(&out); err != nil {
+		return nil, err
+	}
+	return out, nil
+}
+
+func jf(v interface{}, path ...string) interface{} {
+	for _, k := range path {
+		m, ok := v.(map[string]interface{})
+		if !ok {
+			return nil
+		}
+		v = m[k]
+	}
+	return v
+}
+
+func js(v interface{}, path ...string) string { return fmt.Sprint(jf(v, path...)) }
+
+func jl(v interface{}, path ...string) []interface{} {
+	l, _ := jf(v, path...).([]interface{})
+	return l
+}
+
+func pceqRedEntryStr(creation int64, completion int64, initial, shares string) string {
+	return fmt.Sprintf("%d/%d/%s/%s", creation, completion, initial, shares)
+}
+
+// read-only call of a precompile method on a branch of ctx
+func (st *pceqState) view(ctx sdk.Context, to common.Address, a abi.ABI, method string, args ...interface{}) ([]interface{}, string) {
+	data, err := a.Pack(method, args...)
+	if err != nil {
+		return nil, "pack:" + err.Error()
+	}
+	cctx, _ := ctx.CacheContext()
+	cctx = cctx.WithGasMeter(sdk.NewInfiniteGasMeter())
+	res, err := st.evmCall(cctx, to, data)
+	if err != nil {
+		return nil, "err:" + err.Error()
+	}
+	if res.Failed() {
+		return nil, "vm:" + res.VmError
+	}
+	vals, err := pceqUnpack(a, method, res.Ret)
+	if err != nil {
+		return nil, "unpack:" + err.Error()
+	}
+	return vals, ""
+}
+
+func pceqPcPage(items []string, pageResp interface{}) pceqPage {
+	if items == nil {
+		items = []string{}
+	}
+	pg := pceqPage{Items: items, Total: js(pageResp, "total")}
+	if k, _ := jf(pageResp, "nextKey").(string); k != "" {
+		bz, err := base64.StdEncoding.DecodeString(k)
+		if err != nil {
+			panic(err)
+		}
+		pg.next = bz
+		pg.Next = hex.EncodeToString(bz)
+	}
+	return pg
+}
+
+// walk runs one walk natively and through the precompile on ctx.
+func (st *pceqState) walk(ctx sdk.Context, w pceqWalk) (native, pre []pceqPage) {
+	app := st.r.n.App
+	gctx := sdk.WrapSDKContext(ctx)
+	who := ethAddr(st.S)
+	req := func(pr query.PageRequest) pceqPageReq {
+		k := pr.Key
+		if k == nil {
+			k = []byte{}
+		}
+		return pceqPageReq{Key: k, Offset: pr.Offset, Limit: pr.Limit, CountTotal: pr.CountTotal, Reverse: pr.Reverse}
+	}
+	switch w.Q {
+	case "validators":
+		status := w.Sel
+		if status == "all" {
+			status = ""
+		}
+		q := stakingkeeper.Querier{Keeper: app.StakingKeeper.Keeper}
+		native = pceqDoWalk(w, func(pr query.PageRequest) pceqPage {
+			r, err := q.Validators(gctx, &stakingtypes.QueryValidatorsRequest{Status: status, Pagination: &pr})
+			if err != nil {
+				return pceqErrPage(err.Error())
+			}
+			var items []string
+			for _, x := range r.Validators {
+				items = append(items, fmt.Sprintf("%s/%v/%d/%s/%s/%s/%d/%d/%s", x.OperatorAddress, x.Jailed, stakingtypes.BondStatus_value[x.Status.String()], x.Tokens,
+					x.DelegatorShares.BigInt(), x.Commission.CommissionRates.Rate.BigInt(), x.UnbondingHeight, x.UnbondingTime.UTC().Unix(), x.MinSelfDelegation))
+			}
+			return pceqPageOf(items, r.Pagination)
+		})
+		pre = pceqDoWalk(w, func(pr query.PageRequest) pceqPage {
+			vals, e := st.view(ctx, stakingPC, stakingABI, "validators", status, req(pr))
+			if e != "" {
+				return pceqErrPage(e)
+			}
+			var items []string
+			for _, x := range vals[0].([]interface{}) {
+				items = append(items, fmt.Sprintf("%s/%s/%s/%s/%s/%s/%s/%s/%s", js(x, "operatorAddress"), js(x, "jailed"), js(x, "status"), js(x, "tokens"),
+					js(x, "delegatorShares"), js(x, "commission"), js(x, "unbondingHeight"), js(x, "unbondingTime"), js(x, "minSelfDelegation")))
+			}
+			return pceqPcPage(items, vals[1])
+		})
+	case "redelegations":
+		del, delHex, src, dst := "", common.Address{}, "", ""
+		parts := strings.SplitN(w.Sel, ":", 2)
+		switch parts[0] {
+		case "del":
+			del, delHex = st.S.Addr.String(), who
+		case "src":
+			src = st.valAddr(parts[1])
+		case "delSrc":
+			del, delHex, src = st.S.Addr.String(), who, st.valAddr(parts[1])
+		case "exact":
+			vv := strings.SplitN(parts[1], ">", 2)
+			del, delHex, src, dst = st.S.Addr.String(), who, st.valAddr(vv[0]), st.valAddr(vv[1])
+		case "none":
+		default:
+			panic("redelegations selector " + w.Sel)
+		}
+		q := stakingkeeper.Querier{Keeper: app.StakingKeeper.Keeper}
+		native = pceqDoWalk(w, func(pr query.PageRequest) pceqPage {
+			r, err := q.Redelegations(gctx, &stakingtypes.QueryRedelegationsRequest{DelegatorAddr: del, SrcValidatorAddr: src, DstValidatorAddr: dst, Pagination: &pr})
+			if err != nil {
+				return pceqErrPage(err.Error())
+			}
+			var items []string
+			for _, x := range r.RedelegationResponses {
+				var es, rs []string
+				for _, e := range x.Redelegation.Entries {
+					es = append(es, pceqRedEntryStr(e.CreationHeight, e.CompletionTime.Unix(), e.InitialBalance.String(), e.SharesDst.BigInt().String()))
+				}
+				for _, e := range x.Entries {
+					rs = append(rs, pceqRedEntryStr(e.RedelegationEntry.CreationHeight, e.RedelegationEntry.CompletionTime.Unix(), e.RedelegationEntry.InitialBalance.String(),
+						e.RedelegationEntry.SharesDst.BigInt().String())+"="+e.Balance.String())
+				}
+				items = append(items, fmt.Sprintf("%s>%s>%s[%s][%s]", x.Redelegation.DelegatorAddress, x.Redelegation.ValidatorSrcAddress, x.Redelegation.ValidatorDstAddress,
+					strings.Join(es, ";"), strings.Join(rs, ";")))
+			}
+			return pceqPageOf(items, r.Pagination)
+		})
+		entry := func(e interface{}) string {
+			return fmt.Sprintf("%s/%s/%s/%s", js(e, "creationHeight"), js(e, "completionTime"), js(e, "initialBalance"), js(e, "sharesDst"))
+		}
+		pre = pceqDoWalk(w, func(pr query.PageRequest) pceqPage {
+			vals, e := st.view(ctx, stakingPC, stakingABI, "redelegations", delHex, src, dst, req(pr))
+			if e != "" {
+				return pceqErrPage(e)
+			}
+			var items []string
+			for _, x := range vals[0].([]interface{}) {
+				var es, rs []string
+				for _, e := range jl(x, "redelegation", "entries") {
+					es = append(es, entry(e))
+				}
+				for _, e := range jl(x, "entries") {
+					rs = append(rs, entry(jf(e, "redelegationEntry"))+"="+js(e, "balance"))
+				}
+				items = append(items, fmt.Sprintf("%s>%s>%s[%s][%s]", js(x, "redelegation", "delegatorAddress"), js(x, "redelegation", "validatorSrcAddress"),
+					js(x, "redelegation", "validatorDstAddress"), strings.Join(es, ";"), strings.Join(rs, ";")))
+			}
+			return pceqPcPage(items, vals[1])
+		})
+	case "validatorSlashes":
+		va := st.valAddr(w.Sel)
+		q := distrkeeper.Querier{Keeper: app.DistrKeeper}
+		native = pceqDoWalk(w, func(pr query.PageRequest) pceqPage {
+			r, err := q.ValidatorSlashes(gctx, &distrtypes.QueryValidatorSlashesRequest{ValidatorAddress: va, StartingHeight: 0, EndingHeight: 1_000_000, Pagination: &pr})
+			if err != nil {
+				return pceqErrPage(err.Error())
+			}
+			var items []string
+			for _, x := range r.Slashes {
+				items = append(items, fmt.Sprintf("%d/%s", x.ValidatorPeriod, x.Fraction.BigInt()))
+			}
+			return pceqPageOf(items, r.Pagination)
+		})
+		pre = pceqDoWalk(w, func(pr query.PageRequest) pceqPage {
+			vals, e := st.view(ctx, distrPC, distrABI, "validatorSlashes", va, uint64(0), uint64(1_000_000), req(pr))
+			if e != "" {
+				return pceqErrPage(e)
+			}
+			var items []string
+			for _, x := range vals[0].([]interface{}) {
+				items = append(items, fmt.Sprintf("%s/%s", js(x, "validatorPeriod"), js(x, "fraction", "value")))
+			}
+			return pceqPcPage(items, vals[1])
+		})
+	default:
+		panic("walk of " + w.Q)
+	}
+	return native, pre
+}
+
 func pceqMain(args []string) error {
 	fs := flag.NewFlagSet("pceq", flag.ExitOnError)
 	cases := fs.String("cases", "", "JSON file: array of cases")
+	walksF := fs.String("walks", "", "JSON file: array of walks of paginated queries (each names its state)")
 	seed := fs.Int64("seed", 1, "seed")
 	out := fs.String("out", "trace.ndjson", "trace output")
 	fs.Parse(args)
 	var all []pceqCase
-	if err := readJSONFile(*cases, &all); err != nil {
-		return err
+	if *cases != "" {
+		if err := readJSONFile(*cases, &all); err != nil {
+			return err
+		}
+	}
+	var walks []pceqWalk
+	if *walksF != "" {
+		if err := readJSONFile(*walksF, &walks); err != nil {
+			return err
+		}
 	}
 	tw, err := NewTraceWriter(*out)
 	if err != nil {
@@ -557,43 +1210,70 @@ func pceqMain(args []string) error {
 	}
 	defer tw.Close()
 	states := map[string]*pceqState{}
-	for i, c := range all {
-		st, ok := states[c.State]
+	scn := 0
+	get := func(name string) *pceqState {
+		st, ok := states[name]
 		if !ok {
-			st = pceqBuild(*seed, c.State)
-			states[c.State] = st
+			st = pceqBuild(*seed, name)
+			states[name] = st
 			// queries are compared once per state, and once more after a state-changing case
-			tw.Emit(M{"ev": "queries", "scn": i + 1, "state": c.State, "q": st.queries(st.ctx)})
+			tw.Emit(M{"ev": "queries", "scn": scn, "state": name, "q": st.queries(st.ctx)})
 		}
-		amt := st.amount(st.ctx, c.Amt, c.Val)
-		pre := st.r.project(st.ctx)
+		return st
+	}
+	for i, c := range all {
+		scn = i + 1
+		c = c.norm()
+		st := get(c.State)
+		amt := st.amount(st.ctx, c)
 		// every fork gets a fresh gas meter (the precompiles account against ctx.GasMeter())
 		c1, _ := st.ctx.CacheContext()
 		c1 = c1.WithGasMeter(sdk.NewInfiniteGasMeter())
 		okN, errN := st.native(c1, c, amt)
-		postN := pre
-		if okN {
-			postN = st.r.project(c1)
-		}
 		c2, _ := st.ctx.CacheContext()
 		c2 = c2.WithGasMeter(sdk.NewInfiniteGasMeter())
 		okP, errP := st.precompile(c2, c, amt)
-		postP := pre
-		if okP {
-			postP = st.r.project(c2)
-		}
 		cut := func(s string) string {
 			if len(s) > 140 {
 				return s[:140]
 			}
 			return s
 		}
-		tw.Emit(M{"ev": "case", "scn": i + 1, "case": c, "amount": amt.String(), "pre": pre,
-			"native": M{"ok": okN, "err": cut(errN), "post": postN}, "precompile": M{"ok": okP, "err": cut(errP), "post": postP}})
+		// a failed execution has no effect by construction (its fork is dropped): only successful ones are projected
+		nat, pre := M{"ok": okN, "err": cut(errN)}, M{"ok": okP, "err": cut(errP)}
+		if okN {
+			nat["post"] = st.project(c1)
+		}
+		if okP {
+			pre["post"] = st.project(c2)
+		}
+		line := M{"ev": "case", "scn": scn, "case": c, "amount": amt.String(), "native": nat, "precompile": pre}
+		if okN != okP || (okN && i%50 == 0) {
+			line["pre"] = st.project(st.ctx) // diagnostic only
+		}
+		tw.Emit(line)
 		if okP && i%7 == 0 {
-			tw.Emit(M{"ev": "queries", "scn": i + 1, "state": c.State + "+" + c.M, "q": st.queries(c2)})
+			tw.Emit(M{"ev": "queries", "scn": scn, "state": c.State + "+" + c.M, "q": st.queries(c2)})
 		}
 	}
-	fmt.Printf("pceq: cases=%d lines=%d\n", len(all), tw.N)
+	for _, w := range walks {
+		scn++
+		st := get(w.State)
+		nat, pre := st.walk(st.ctx, w)
+		// (the texts of the failures are diagnostic: the two sides word them differently)
+		errs := func(ps []pceqPage) string {
+			for _, p := range ps {
+				if p.errText != "" {
+					if len(p.errText) > 160 {
+						return p.errText[:160]
+					}
+					return p.errText
+				}
+			}
+			return ""
+		}
+		tw.Emit(M{"ev": "walk", "scn": scn, "state": w.State, "walk": w, "native": nat, "precompile": pre, "errs": M{"native": errs(nat), "precompile": errs(pre)}})
+	}
+	fmt.Printf("pceq: cases=%d walks=%d lines=%d\n", len(all), len(walks), tw.N)
 	return nil
 }
